@@ -294,15 +294,35 @@ inline const char* signame(int s) {
 // (in which case a "trap" violation has been recorded with the inputs string set by the caller).
 // The sigsetjmp lives in a tiny non-inlined function with no locals of its own: everything the body touches is
 // captured by reference (i.e. lives in the caller's frame memory), so nothing is clobbered by the longjmp.
+// Linux enters a signal handler with the FP state reset to its initial value; leaving the handler by siglongjmp (no
+// sigreturn) would therefore leave MXCSR / the x87 control word at their defaults.  guarded_call saves both before the
+// call and restores them on the trap path, so a trap never looks like "the operation changed the FP environment".
+struct FpCtl { uint32_t mxcsr; uint16_t x87; };
+inline FpCtl fpctl_get() {
+    FpCtl c; c.mxcsr = 0; c.x87 = 0;
+#if defined(__x86_64__) || defined(__i386__)
+    c.mxcsr = _mm_getcsr(); uint16_t cw; __asm__ __volatile__("fnstcw %0" : "=m"(cw)); c.x87 = cw;
+#endif
+    return c;
+}
+inline void fpctl_set(const FpCtl& c) {
+#if defined(__x86_64__) || defined(__i386__)
+    _mm_setcsr(c.mxcsr & ~0x3Fu); uint16_t cw = c.x87; __asm__ __volatile__("fldcw %0" : : "m"(cw));
+#endif
+}
+inline FpCtl& saved_fpctl() { static FpCtl c; return c; }
+
 template<class F>
 __attribute__((noinline)) bool guarded_call(F&& f) {
     TrapCtx& t = trap();
+    saved_fpctl() = fpctl_get();
     if (sigsetjmp(t.env, 0) == 0) {
         t.armed = 1;
         f();
         t.armed = 0;
         return true;
     }
+    fpctl_set(saved_fpctl());
     return false;
 }
 
